@@ -3,6 +3,7 @@ from contracts import c01_lp, c02_rename  # noqa
 from contracts import c01_populate as POP
 from contracts import c02_rxn_add_metabolites as RAM
 from contracts import c02_add_reactions as AR
+from contracts import c01_solver_setter as SS
 from props._generic import run_property, replay_with_driver
 
 LEVEL = "other"
@@ -61,8 +62,9 @@ def fallback(key, case, rec):
 
 def run(rep):
     run_property(rep, KEYS, fallback=fallback, more=[(RENAME_KEYS, c02_rename.HOOKS), (GETTER_KEYS, c01_lp.GETTER_HOOKS), ([POP.KEY], POP.HOOKS),
-                                                        (RAM.KEYS, RAM.HOOKS), (AR.KEYS, AR.HOOKS)],
+                                                        (RAM.KEYS, RAM.HOOKS), (AR.KEYS, AR.HOOKS), (SS.KEYS, SS.HOOKS)],
                  lemmas=lambda: POP.lemmas() + [o for o in RAM.lemmas() if "rows" in o.name or "undo" in o.name], explanation=(
+        "Switching the solver interface (the Model.solver setter, contracts/c01_solver_setter.py; every path): an argument check_solver refuses raises SolverNotFound with NOTHING changed (same solver object, no call, nothing registered); an argument that resolves to the interface of the current solver does nothing (same OBJECT, no clone, nothing registered, also in a context); otherwise exactly one interface.Model.clone(<old solver object>) and `_solver` is the NEW object it returned, of the requested interface and - ASSUMED clone contract - with the old object's problem (same variables / constraints / objective by name, bounds, coefficients), the old object untouched; in a context exactly one entry partial(setattr, self, '_solver', <the previous solver OBJECT>) is registered in the innermost context BEFORE the clone (10ce3f2: the very object is put back); no tolerance call, `_tolerance` unchanged - that the new solver's configuration carries the tolerance is left to the assumed clone and NOT claimed. "
         "Reaction.forward_variable / reverse_variable / reverse_id (assumed contracts until round 5) are proved against their real bodies: None without a model, else the look-up model.variables[id] resp. [reverse_id] in the variables container of the solver of the reaction's own model (through the real Model.variables / Model.solver getters), which is fwd / rev of the reaction under the stated in-step assumption; reverse_id = '_'.join((id, 'reverse', md5(id utf-8).hexdigest()[0:5])), the documented shape. "
         "Model.add_reactions (no context) is proved to call _populate_solver exactly once, with exactly the reactions that joined, in the exit state (every joining reaction linked, appended and found under its identifier - the cobra-side precondition of _populate_solver's contract), and not at all when it raises. "
         "Deductive (kernel): Reaction.update_variable_bounds is proved, for all extended-real bounds with lb<=ub, lb<+inf, ub>-inf, "
@@ -92,7 +94,7 @@ def run(rep):
         "metabolite, no other cell written; lemma rows-preserved: if every row mirrored the stoichiometry at entry it does at exit. "
         "The closure of the invariant over all public operations and histories is NOT proved: it is covered "
         "by the bounded driver (exhaustive/seeded histories with the GLPK problem read back through swiglpk after every step)."),
-        trusted=["optlang Variable.set_bounds; optlang Container look-up by name (VarContainer.__getitem__: model.variables[name] is the object registered under name, KeyError if none)",
+        trusted=["Model.solver setter: check_solver as a look-up (ghost chk_ok / chk_iface of the argument; interface_to_str, the `solvers` table and the osqp / cbc warning not modelled); Model.problem == the interface of the current solver object; interface.Model.clone(s) returns a NEW solver object of that interface with the same problem (lp_of) and modifies nothing, exceptions inside optlang not modelled; HistoryManager.__call__ as a ghost push event", "optlang Variable.set_bounds; optlang Container look-up by name (VarContainer.__getitem__: model.variables[name] is the object registered under name, KeyError if none)",
                  "solver in step (axiom of the proved forward_variable / reverse_variable getters): the objects registered in the solver of a reaction's model under its id / reverse id are the ones the contracts call fwd / rev, both exist and differ (md5-based reverse_id different from every reaction id)",
                  "hashlib.md5(..).hexdigest()[0:5] and str.join as uninterpreted functions of their string arguments; reverse_id_of(id) DEFINED as '_'.join((id, 'reverse', md5 prefix))",
                  "reverse_id is a function of the current id (hook in contracts/c02_rename.py); lookup of a solver variable by name "
